@@ -60,6 +60,8 @@ type Machine struct {
 	initDirect *ssa.Function
 	fpMemo     map[fpKey]*Term
 	fpOrigin   map[*Term]*Term // float64 var -> the float32 term it widens
+	poolReuse  bool              // sync.Pool.Get returns the most recently Put object (LIFO) instead of always missing
+	pools      map[*value][]value
 }
 
 type deferred struct {
